@@ -103,6 +103,7 @@ type runner struct {
 	holdStp atomic.Bool
 	lateStp atomic.Bool
 	outAddr []string
+	early   *vh.PeerListener // listening honest seed whose address is handed over by "addseed"
 	seedOn  atomic.Bool
 	tokens  chan struct{}
 	free    atomic.Bool
@@ -438,6 +439,19 @@ func run(h History, dir string) {
 			r.call("announce", func() error { tr.Announce(); return nil })
 		case "addpeer":
 			r.call("addpeer", func() error { return tr.AddPeer("127.0.0.77:1") })
+		case "addseed":
+			// AddPeer with the address of a reachable honest seed (its own loopback address: rain accepts one connection per IP)
+			if r.early == nil {
+				l, err := vh.ListenSeeder(T, "eseed", "127.0.0.11", tor, &vh.SeederPolicy{Gate: r.tokens}, nil)
+				if err != nil {
+					T.Emit(vh.Ev{"ev": "waitfail", "wait": "addseed-listen"})
+					break
+				}
+				r.early = l
+				defer l.Close()
+			}
+			a := r.early.Addr.String()
+			r.call("addseed", func() error { return tr.AddPeer(a) })
 		case "addtracker":
 			r.call("addtracker", func() error { return tr.AddTracker(trk.URL() + "?x=" + strconv.Itoa(st.N)) })
 		case "stats":
